@@ -63,7 +63,7 @@ def parse_meta_text(text):
         return None
 
 
-def abstract_events(events, failure_propagated=True):
+def abstract_events(events, failure_propagated=True, crash_markers=True):
     """Concrete injector events (in log order) -> {key: [(op, outcome, info)]} and the list of keys in order
     of first appearance.  `info` = {"k": concrete index, "thread":..., "worker": bool, "sid": ...} of the
     concrete event that completed (or failed) the abstract operation."""
@@ -96,6 +96,12 @@ def abstract_events(events, failure_propagated=True):
     for ev in events:
         kind = ev["kind"]
         if kind == "upexc":
+            # "processing failed upstream" is inserted only where it is certain that every open saver is told so
+            # right away (single-thread processor: kill_spies).  With the threaded processor a saver may have
+            # consumed its whole source already and close normally -- its data is complete -- while another
+            # thread's failure is still being propagated: whether it records `exception` depends on timing
+            if not crash_markers:
+                continue
             for key in list(order):
                 emit(key, ("upexc",), "done", ev)
             # keys whose saver has not issued any operation yet cannot be told apart here
@@ -250,6 +256,13 @@ def s_dir(d):
 
 def s_fs(afs):
     return "T" + s_dir(afs["temp"]) + "F" + s_dir(afs["final"])
+
+
+def mask_files(s, names):
+    """replace the content of the named files ("meta", "t0", "c1", ...) in a canonical fs string by '*'"""
+    for n in names:
+        s = re.sub(r"(?<=[{;])%s=[^;}]*" % re.escape(n), n + "=*", s)
+    return s
 
 
 def norm_fs(s):
